@@ -548,6 +548,7 @@ func (t *sseClientTransport) sendRequestInternal(ctx context.Context, req *JSONR
 	if t.closed.Load() {
 		return nil, errors.New("transport is closed")
 	}
+	verifYield("ssecli.req.afterclosed")
 
 	if t.endpoint == nil {
 		return nil, errors.New("endpoint URL not received")
